@@ -20,14 +20,17 @@ def netToJson (n : Net) : Json :=
     ("canarySvc", optJ strJ n.canarySvc), ("stableIngress", boolJ n.stableIngress), ("canaryIng", optJ natJ n.canaryIng)]
 def memOfJson (j : Json) : R Mem := do
   return { patchService := expOf (← fStr j "patchService"), restoreService := expOf (← fStr j "restoreService"),
-           restoreGateway := expOf (← fStr j "restoreGateway"), removeCanaryService := expOf (← fStr j "removeCanaryService") }
+           restoreGateway := expOf (← fStr j "restoreGateway"), removeCanaryService := expOf (← fStr j "removeCanaryService"),
+           updateRoute := expOf (← fStr j "updateRoute") }
 def memToJson (m : Mem) : Json :=
   mkObj [("patchService", strJ (expStr m.patchService)), ("restoreService", strJ (expStr m.restoreService)),
-    ("restoreGateway", strJ (expStr m.restoreGateway)), ("removeCanaryService", strJ (expStr m.removeCanaryService))]
+    ("restoreGateway", strJ (expStr m.restoreGateway)), ("removeCanaryService", strJ (expStr m.removeCanaryService)),
+    ("updateRoute", strJ (expStr m.updateRoute))]
 def ctxOfJson (j : Json) : R TCtx := do
+  let hk ← (match jopt j "hasRevKey" with | none => pure true | some b => jbool b)
   return { hasRef := ← fBool j "hasRef", grace := ← fNat j "grace", weight := ← fOptNat j "weight",
            disableGen := ← fBool j "disableGen", stableRev := ← fStr j "stableRev", canaryRev := ← fStr j "canaryRev",
-           lastUpdate := ageOf (← fStr j "lastUpdate") }
+           lastUpdate := ageOf (← fStr j "lastUpdate"), hasRevKey := hk }
 def outToJson (o : TOut) : Json :=
   mkObj [("done", boolJ o.done), ("err", boolJ o.err), ("net", netToJson o.net), ("mem", memToJson o.mem), ("touched", boolJ o.touched),
     ("writes", arrJ (o.writes.map strJ))]
@@ -44,6 +47,7 @@ def callOf (call : String) : Option (TCtx → Net → Mem → TOut) :=
   | "removeCanaryService" => some removeCanaryService
   | "finalisingTrafficRouting" => some finalisingTrafficRouting
   | "doTrafficRouting" => some doTrafficRouting
+  | "routeAllToNew" => some routeAllToNew
   | _ => none
 
 def handle : Handler := fun op inp impl => do
@@ -64,7 +68,8 @@ def handle : Handler := fun op inp impl => do
           pure (RV.Oracle.Traffic.callOracles call c n m io))
       return { model := outToJson o, holds := holds,
                tags := [s!"call:{call}", if o.done then "res:true" else "res:false", if o.err then "err" else "noerr",
-                        if o.net != n then "netwrite" else "nonetwrite", s!"grace:{c.grace}"] }
+                        if o.net != n then "netwrite" else "nonetwrite", s!"grace:{c.grace}"] ++
+                        (if c.hasRevKey then [] else ["guard:noRevKey"]) }
   | _ => .error s!"traffic: unknown op {op}"
 
 end RV.Drv.Traffic
